@@ -631,10 +631,84 @@ func ruleReportConnLookedUp(w *World, r *Report, prop, rule string) {
 					}
 				}
 			}
+			// ... or the callback only notes the value it was offered and the call follows the Range
+			if !good {
+				good = heldFromRangeNow(f, c, recv)
+			}
 			r.check(good, rule, w.FuncName(f), "the report goes to an association found in pConns now", w.Pos(c.Pos()), "receiver = value of the Range callback", "handleDigestReport is called on "+symOf(recv).String()+", a connection remembered from earlier: after the association ended and was set up again the reports go to the dead connection, whose store does not know the new sessions — no Session Report Request is sent")
 		}
 	}
 	r.floor(rule+" report dispatch sites", n, 1)
+}
+
+// heldFromRangeNow: recv is read from a variable of f that was made for this lookup and holds nothing but
+// what the callback of one Range over pConns in f left in it: every write of the variable stores the value
+// the callback was offered (type-asserted), the Range is run at most once per instance of the variable — a
+// variable that lives across reports (declared outside the loop, a field) keeps an association from an
+// earlier report — and the Range has returned on every way to the call.
+func heldFromRangeNow(f *ssa.Function, call ssa.CallInstruction, recv ssa.Value) bool {
+	u, ok := recv.(*ssa.UnOp)
+	if !ok || u.Op != token.MUL {
+		return false
+	}
+	cell, ok := u.X.(*ssa.Alloc)
+	if !ok || cell.Parent() != f || cell.Referrers() == nil {
+		return false
+	}
+	// the variable is only read, written, and captured by closures (whose writes storesTo lists)
+	for _, ref := range *cell.Referrers() {
+		switch x := ref.(type) {
+		case *ssa.DebugRef, *ssa.UnOp, *ssa.MakeClosure:
+		case *ssa.Store:
+			if x.Addr != ssa.Value(cell) {
+				return false
+			}
+		default:
+			return false
+		}
+	}
+	var rng ssa.Instruction
+	sts := storesTo(cell)
+	for _, st := range sts {
+		g := st.Parent()
+		v := st.Val
+		if ex, isEx := v.(*ssa.Extract); isEx {
+			v = ex.Tuple
+		}
+		ta, isTA := v.(*ssa.TypeAssert)
+		if !isTA || g == f {
+			return false
+		}
+		if p, isP := ta.X.(*ssa.Parameter); !isP || p.Parent() != g {
+			return false
+		}
+		// g is the callback of a Range over pConns called in f
+		var site ssa.Instruction
+		for _, rc := range callsIn(f, func(rc ssa.CallInstruction) bool {
+			return strings.HasSuffix(calleeName(rc), "sync.Map).Range") && len(rc.Common().Args) == 2
+		}) {
+			if _, isCall := rc.(*ssa.Call); !isCall {
+				continue // go / defer: the Range has not returned when the call is made
+			}
+			args := rc.Common().Args
+			fa, isFA := args[0].(*ssa.FieldAddr)
+			if isFA && fieldVar(fa) != nil && fieldVar(fa).Name() == "pConns" && closureOf(args[1]) == g {
+				if site != nil {
+					return false
+				}
+				site = rc
+			}
+		}
+		if site == nil || (rng != nil && rng != site) {
+			return false
+		}
+		rng = site
+	}
+	if rng == nil {
+		return false
+	}
+	again := reach(f, rng, func(i ssa.Instruction) bool { return i == rng }, func(i ssa.Instruction) bool { return i == ssa.Instruction(cell) }, nil) != nil
+	return !again && instrDominates(rng, call)
 }
 
 // ruleLoopErrorExamined: a datapath write that fails inside a per-rule loop ends the request there: the error
